@@ -7,14 +7,14 @@ set -euo pipefail
 ROOT="$(cd "$(dirname "$0")/.." && pwd)"
 TC=1.98.1-x86_64-unknown-linux-gnu
 export CARGO_NET_OFFLINE=true
-for fs in default all; do
+for fs in default all luajit; do
   D="$ROOT/.build/vdeps/$fs"
   if ls "$D"/target/debug/deps/libfull_moon-*.rlib >/dev/null 2>&1 && ls "$D"/target/debug/deps/libec4rs-*.rlib >/dev/null 2>&1 && [ "$D/Cargo.lock" -nt /repo/Cargo.lock ]; then
     continue
   fi
   mkdir -p "$D/src"
   : > "$D/src/lib.rs"
-  if [ "$fs" = all ]; then FEAT='features=["luau","lua52","lua53","lua54","luajit"]'; else FEAT='features=[]'; fi
+  if [ "$fs" = all ]; then FEAT='features=["luau","lua52","lua53","lua54","luajit"]'; elif [ "$fs" = luajit ]; then FEAT='features=["luajit"]'; else FEAT='features=[]'; fi
   cat > "$D/Cargo.toml" <<TOML
 [package]
 name = "vdeps"
